@@ -134,6 +134,8 @@ def serialise(node, prefix='tal', spelling=None, root=True):
         return '${' + xml_escape(expr_text(node['interp'])) + '}'
     if 'dollar' in node:
         return '$$' * node['dollar']
+    if 'code' in node:
+        return '<?python ' + node['code'] + ' ?>'      # a code block (one line)
     if 'comment' in node:
         return '<!--' + node.get('kind', '') + parts_text(node['comment'], False) + '-->'
     if 'cdata' in node:
